@@ -286,7 +286,13 @@ def configs(tier):
             dwc(2, 1, 2, version, False, True, 4, 1, towards=[[0.3, 0.3], [0.3, 0.8]])
         dwc(2, 1, 2, 6, False, False, 4, 1, modified=True, towards=[[0.3, 0.3]])
         dwc(3, 1, 2, 6, False, True, 3, 1, towards=[[0.3, 0.3, 0.3]])
+        # lmax - lmin = 2: anisotropic growth of the per-dimension maximum levels
+        dwc(2, 1, 3, 6, False, True, 4, 1, towards=[[0.3, 0.3]])
+        dwc(2, 1, 3, 7, False, True, 3, 1, towards=[[0.3, 0.8]])
     else:
+        for version in (6, 7, 8, 2, 3):
+            dwc(2, 1, 3, version, False, True, 5, 1, towards=[[0.3, 0.3], [0.3, 0.8]])
+            dwc(2, 1, 4, version, False, True, 3, 1, towards=[[0.3, 0.3]])
         for version in (6, 7, 8, 2, 3):
             for bnd in (True, False):
                 dwc(2, 1, 2, version, False, bnd, 6, 1, towards=[[0.3, 0.3], [0.3, 0.8], [0.6, 0.1]])
